@@ -3484,6 +3484,16 @@ def cli_main():
         for d in include_dirs:
             log.info('search: {}'.format(d))
 
+    # validate the hex offset before any output file gets (over)written
+    hex_offset = None
+    if args.hex_offset:
+        try:
+            hex_offset = int(args.hex_offset, base=0)
+        except ValueError:
+            raise SystemExit('invalid hex offset: {}'.format(args.hex_offset))
+        if hex_offset < 0 or hex_offset + len(binary) > 2**32:
+            raise SystemExit('hex offset out of range: {}'.format(args.hex_offset))
+
     if args.labels:
         lines = ['{} 0x{:08x}\n'.format(k, v) for k, v in labels.items()]
         with open(args.labels, 'w') as f:
@@ -3493,15 +3503,10 @@ def cli_main():
         out_bin.write(binary)
 
     # output an additional file in the Intel HEX format at the given offset
-    if args.hex_offset:
+    if hex_offset is not None:
         from intelhex import bin2hex
 
-        try:
-            offset = int(args.hex_offset, base=0)
-        except:
-            raise SystemExit('invalid hex offset: {}'.format(args.hex_offset))
-
-        bin2hex(args.output, args.output + '.hex', offset)
+        bin2hex(args.output, args.output + '.hex', hex_offset)
 
 
 if __name__ == '__main__':
